@@ -630,6 +630,37 @@ def layout_instances(m, fs):
     return [dict(layout=k[0], array=k[1], pos=k[2], fields=v) for k, v in sorted(out.items(), key=lambda kv: kv[0][2])]
 
 
+def z3cli_check(smt2, timeout_ms):
+    """third back end: the z3 command-line binaries on the SMT-LIB2 text of the query, in a FRESH process.  In-process the
+    quantifier heuristics of z3 depend on every term created before in the same context (which functions a worker verified
+    earlier), so an obligation that needs a witness for an existential is occasionally answered `unknown` although it is
+    proved in 0.6 s from a clean state; a fresh process sees the formula alone.  Only `unsat` is used."""
+    import os
+    import subprocess
+    import tempfile
+    fd, path = tempfile.mkstemp(suffix='.smt2', prefix='pyvc_')
+    try:
+        with os.fdopen(fd, 'w') as f:
+            f.write(smt2)
+        for exe in ('/usr/local/bin/z3-new', '/usr/bin/z3'):
+            if not os.path.exists(exe):
+                continue
+            try:
+                out = subprocess.run([exe, '-smt2', '-T:%d' % max(1, timeout_ms // 1000), path],
+                                     capture_output=True, text=True, timeout=timeout_ms / 1000.0 + 5)
+            except subprocess.TimeoutExpired:
+                continue
+            first = (out.stdout.strip().splitlines() or [''])[0]
+            if first == 'unsat':
+                return 'unsat', os.path.basename(exe)
+        return 'unknown', None
+    finally:
+        try:
+            os.unlink(path)
+        except OSError:
+            pass
+
+
 def cvc5_check(smt2, timeout_ms):
     """second back end: /usr/bin/cvc5 on the SMT-LIB2 text of the query; only `unsat`
     is used (a proof); anything else leaves the obligation undecided"""
@@ -737,6 +768,12 @@ def discharge(res, timeout_ms=10000, want_models=True, second_opinion=False):
             if r2 == 'unsat':
                 verdict = rec['verdict'] = 'proved'
                 rec['backend'] = 'cvc5-1.0.3 (z3: %s)' % rec['reason']
+                rec.pop('smt2', None)
+        if verdict == 'undecided' and rec.get('smt2'):
+            r4, exe = z3cli_check(rec['smt2'], max(tmo, 20000))
+            if r4 == 'unsat':
+                verdict = rec['verdict'] = 'proved'
+                rec['backend'] = '%s command line, fresh process (in-process z3: %s)' % (exe, rec.get('reason'))
                 rec.pop('smt2', None)
         if verdict == 'undecided':
             # a verdict must not flip with the load of the machine (solver budgets are wall-clock): one more attempt with
